@@ -459,6 +459,13 @@ def _directed() -> Dict[str, Dict[str, Any]]:
     add('link-targets-odd', {'pkg/__init__.py': '', 'pkg/a.py': 'def f():\n    """See L{' + long_target + '\'s} and L{' + long_target + ' } and L{' + 'a.' * 40 + '!} and L{text <' + long_target + '$>}.\n\n'
                                                                  '    U{' + 'x' * 60 + ' <' + 'http://e.x/' + 'a/' * 40 + ' >} L{' + 'a_' * 50 + '-} C{' + 'w ' * 200 + '} L{' + '.' * 80 + '} L{' + long_target + '..}\n    """\n'
                                          'def g():\n    """`' + long_target + '\'s` and :py:obj:`' + long_target + '\'s` and `' + 'a.' * 60 + '!`_\n    """\n', 'pkg/good.py': GOOD})
+    # section titles that repeat, next to the numbered forms a repeat would be given ("Example", "Example 1", "Example"), long ones, ones without
+    # any identifier character: every docstring renderer must come back
+    heads = ['Example', 'Example 1', 'Example', 'Example-1', 'Example', 'example', '???', '???', 'A rather long heading that reads like a whole sentence about many things ' * 2,
+             'A rather long heading that reads like a whole sentence about many things ' * 2, 'Example 2', 'Example']
+    epy_doc = 'Intro.\n\n' + ''.join(f'{h.strip()}\n{"=" * len(h.strip())}\n\ntext\n\n' for h in heads)
+    add('section-titles-repeat', {'pkg/__init__.py': f'{epy_doc!r}\n', 'pkg/a.py': f'def f():\n    {epy_doc!r}\nclass K:\n    {epy_doc!r}\n',
+                                  'pkg/r.py': f'__docformat__ = "restructuredtext"\n{epy_doc!r}\ndef f():\n    {epy_doc!r}\n', 'pkg/good.py': GOOD})
     add('reexport-own-package', {'pkg/__init__.py': '', 'pkg/a/__init__.py': 'x = 1\nclass InA: pass\n', 'pkg/a/b.py': 'from pkg import a\nfrom pkg.a import InA\nimport pkg\n__all__ = ["a", "InA", "pkg"]\n',
                                   'pkg/a/c.py': 'from .. import a as renamed\nfrom . import c\n__all__ = ["renamed", "c"]\n', 'pkg/good.py': GOOD})
     add('same-path-twice', {'pkg/__init__.py': '', 'pkg/good.py': GOOD}, roots=['pkg', 'pkg'])
@@ -710,7 +717,7 @@ def run_case(case: Dict[str, Any]) -> core.Res:
     elif kind == 'directed':
         d = DIRECTED[case['name']]
         r = core.rng('C01', 'directed', case['seed'], case['name'])
-        fmts = [FORMATS[(case['seed'] + len(case['name'])) % 5]] + (['epytext', 'restructuredtext'] if any(k in case['name'] for k in ('docstring', 'strings', 'link', 'markup', 'doc-')) else [])
+        fmts = [FORMATS[(case['seed'] + len(case['name'])) % 5]] + (['epytext', 'restructuredtext'] if any(k in case['name'] for k in ('docstring', 'strings', 'link', 'markup', 'doc-', 'titles')) else [])
         for fmt in dict.fromkeys(fmts):
             _run_generated(res, f"directed:{case['name']}", d['files'], d.get('roots', ['pkg']), fmt, d.get('broken', []), d.get('symlinks'), cli=case['name'].startswith(('broken', 'encodings', 'strings')))
             res.c('directed_trees')
